@@ -8,18 +8,34 @@ struct IN {
     uint8_t s[32];
 };
 
+/* a < b for 32-byte little-endian integers (plain C, so that the native replay uses the same oracle) */
+static int
+lt_le32(const uint8_t a[32], const uint8_t b[32])
+{
+    int i, lt = 0, decided = 0;
+    for (i = 31; i >= 0; i--) {
+        if (!decided && a[i] != b[i]) {
+            lt = a[i] < b[i];
+            decided = 1;
+        }
+    }
+    return lt;
+}
+
 VERIF_MAIN
 {
     VERIF_INPUT(struct IN, in);
-    typedef unsigned __CPROVER_bitvector[256] w_t;
-    w_t v = 0, L, p;
-    int i;
-    for (i = 31; i >= 0; i--) v = (v << 8) | (w_t) in.s[i];
-    /* L = 2^252 + 27742317777372353535851937790883648493 */
-    L = ((w_t) 1 << 252) + (((w_t) 0x14def9dea2f79cd6ULL << 64) | (w_t) 0x5812631a5cf5d3edULL);
-    p = ((w_t) 1 << 255) - 19;
-    CHECK((sc25519_is_canonical(in.s) != 0) == (v < L), "sc25519_is_canonical(s) <=> s < L");
-    CHECK((ge25519_is_canonical(in.s) != 0) == ((v & (((w_t) 1 << 255) - 1)) < p), "ge25519_is_canonical(s) <=> y = s mod 2^255 < p");
-    if (v >= L && v < L + 8) { WITNESS_AT("scalar just above L"); }
+    /* L = 2^252 + 27742317777372353535851937790883648493, p = 2^255 - 19, little endian */
+    static const uint8_t L[32] = { 0xed, 0xd3, 0xf5, 0x5c, 0x1a, 0x63, 0x12, 0x58, 0xd6, 0x9c, 0xf7, 0xa2, 0xde, 0xf9, 0xde, 0x14,
+                                   0, 0, 0, 0, 0, 0, 0, 0, 0, 0, 0, 0, 0, 0, 0, 0x10 };
+    static const uint8_t P[32] = { 0xed, 0xff, 0xff, 0xff, 0xff, 0xff, 0xff, 0xff, 0xff, 0xff, 0xff, 0xff, 0xff, 0xff, 0xff, 0xff,
+                                   0xff, 0xff, 0xff, 0xff, 0xff, 0xff, 0xff, 0xff, 0xff, 0xff, 0xff, 0xff, 0xff, 0xff, 0xff, 0x7f };
+    uint8_t y[32];
+    int     i;
+    for (i = 0; i < 32; i++) y[i] = in.s[i];
+    y[31] &= 0x7f;
+    CHECK((sc25519_is_canonical(in.s) != 0) == lt_le32(in.s, L), "sc25519_is_canonical(s) <=> s < L");
+    CHECK((ge25519_is_canonical(in.s) != 0) == lt_le32(y, P), "ge25519_is_canonical(s) <=> y = s mod 2^255 < p");
+    if (!lt_le32(in.s, L) && in.s[31] == 0x10 && in.s[0] < 0xf5 && in.s[1] == 0xd3) { WITNESS_AT("scalar just above L"); }
     WITNESS();
 }
